@@ -142,8 +142,9 @@ Release(t) ==
             /\ UNCHANGED <<pool, objs, ctr, loc, acked, applied, acc, nobj>>
        [] h = "recharge.write" ->
             /\ acc' = acc \cup {[v |-> "rtype", obj |-> o, w |-> TRUE, locked |-> HoldsLock(t, o)]}
+            /\ applied' = applied \cup {[t |-> t, obj |-> o]}    \* the rating group is back in reserve mode, the consumer is notified
             /\ pc' = [pc EXCEPT ![t] = IF DEV_RechargeUnlocked THEN [at |-> "done", then |-> ""] ELSE [at |-> "recharge.unlocking", then |-> ""]]
-            /\ UNCHANGED <<pool, objs, ctr, loc, acked, applied, nobj>>
+            /\ UNCHANGED <<pool, objs, ctr, loc, acked, nobj>>
 
 Next == \E t \in T : Begin(t) \/ Acquire(t) \/ Release(t)
 Spec == Init /\ [][Next]_vars
@@ -160,11 +161,14 @@ RefsUnique == \A a, b \in acked : a.t # b.t => a.ref # b.ref
 EffectsNotLost == AllDone => \A t \in T : (Req(t).kind \in {"update", "release"} /\ [u |-> Req(t).u, s |-> Req(t).s] \in Existing)
                                            => \/ \E a \in applied : a.t = t /\ a.obj = pool[Req(t).u]
                                               \/ \E t2 \in T \ {t} : Req(t2).kind = "release" /\ Req(t2).u = Req(t).u /\ Req(t2).s = Req(t).s
+\* every recharge of a subscriber that has sessions takes effect, whatever else is in flight (also another recharge)
+RechargesNotLost == AllDone => \A t \in T : (Req(t).kind = "recharge" /\ \E e \in Existing : e.u = Req(t).u)
+                                           => \E a \in applied : a.t = t /\ a.obj = pool[Req(t).u]
 LocksetDiscipline == \A a \in acc : a.w => a.locked
 ReadsLocked == \A a \in acc : a.locked
 NoDeadlock == AllDone \/ \E t \in T : ENABLED (Begin(t) \/ Acquire(t) \/ Release(t))
 Case == <<[mix |-> Mix, existing |-> Existing, schedule |-> sched]>>
-Good == AckedSessionUsable /\ RefsUnique /\ EffectsNotLost /\ LocksetDiscipline /\ ReadsLocked /\ NoDeadlock
+Good == AckedSessionUsable /\ RefsUnique /\ EffectsNotLost /\ RechargesNotLost /\ LocksetDiscipline /\ ReadsLocked /\ NoDeadlock
 InvC09 == Good \/ (PrintT(<<"VF-CEX", ToJson(Case)>>) /\ FALSE)
 \* one behaviour per complete interleaving (emitted when the last thread finishes)
 EmitBehaviour == IF AllDone' /\ ~AllDone /\ RandomElement(1..EmitOneIn) = 1
